@@ -86,15 +86,32 @@ func StringHexToScalar(group kyber.Group, str string) (kyber.Scalar, error) {
 func getHex(r io.Reader, l int) ([]byte, error) {
 	bufHex := make([]byte, l*2)
 	bufByte := make([]byte, l)
-	n, err := r.Read(bufHex)
-	if err != nil {
-		return nil, err
+	// A Reader may legally hand out fewer bytes than asked for on each call,
+	// so keep reading until the buffer is full. A reader that keeps returning
+	// nothing without an error is given up on.
+	n, empty := 0, 0
+	for n < len(bufHex) {
+		m, err := r.Read(bufHex[n:])
+		n += m
+		if n == len(bufHex) {
+			break
+		}
+		if err != nil {
+			if n > 0 && errors.Is(err, io.EOF) {
+				return nil, errors.New("didn't get enough bytes from stream")
+			}
+			return nil, err
+		}
+		if m == 0 {
+			empty++
+			if empty >= 100 {
+				return nil, errors.New("didn't get enough bytes from stream")
+			}
+		} else {
+			empty = 0
+		}
 	}
-	if n < len(bufHex) {
-		return nil, errors.New("didn't get enough bytes from stream")
-	}
-	_, err = hex.Decode(bufByte, bufHex)
-	if err != nil {
+	if _, err := hex.Decode(bufByte, bufHex); err != nil {
 		return nil, err
 	}
 	return bufByte, nil
